@@ -50,6 +50,10 @@ def main(argv=None) -> int:
     if args.prop == "show":
         print(json.dumps(json.load(open(args.path)), indent=1))
         return 0
+    if args.prop == "audit":
+        from . import audit
+        audit.run(args.path.upper())
+        return 0
     if args.prop == "all":
         worst = 0
         for p in PROPS:
